@@ -38,6 +38,8 @@ type c08Case struct {
 	// StatusLen: length of the AUDIT_GET reply payload (0 = the full 44 bytes): older kernels send 32, 36 or 40
 	// bytes, newer ones may send more
 	StatusLen int `json:"status_reply_bytes,omitempty"`
+	// WrapErr: how the transport reports transient receive failures (0 bare errno, 1 *os.SyscallError, 2 %w)
+	WrapErr int `json:"receive_errors_wrapped,omitempty"`
 }
 
 var c08Ops = []string{"getstatus", "getrules", "addrule", "deleterule", "deleterules", "set-pid", "set-ratelimit", "set-backloglimit", "set-enabled", "set-immutable", "set-failure", "set-backlogwait"}
@@ -97,6 +99,7 @@ func c08Exec(k *c08Case) *c08Outcome {
 	out := &c08Outcome{}
 	sim := simkernel.New(k.StartSeq)
 	sim.AllowSeqZero = k.SeqZero
+	sim.WrapRecvErr = k.WrapErr
 	out.Sim = sim
 	nr := k.NRules
 	rules := make([][]byte, nr)
@@ -321,7 +324,7 @@ func c08Check(c *mon.Ctx, k *c08Case) {
 		c.Violation("panic", fmt.Sprintf("panic %v in op %s\n%s", p, k.Op, st), k)
 		return
 	}
-	desc := fmt.Sprintf("op=%s rules=%d errno=%d@%d adv=%q unsolicited=%v bursts=%v bursts_before_events=%v start_seq=%d send_fails_at=%d", k.Op, k.NRules, k.Errno, k.ErrAt, k.Adv, k.Unsol, k.Burst, k.EvBurst, k.StartSeq, k.SendFail)
+	desc := fmt.Sprintf("op=%s rules=%d errno=%d@%d adv=%q unsolicited=%v bursts=%v bursts_before_events=%v start_seq=%d send_fails_at=%d", k.Op, k.NRules, k.Errno, k.ErrAt, k.Adv, k.Unsol, k.Burst, k.EvBurst, k.StartSeq, k.SendFail) + fmt.Sprintf(" receive_errors_wrapped=%d", k.WrapErr)
 	// the request(s) the operation put on the wire
 	if k.Adv == "" && o.NMain > 0 {
 		wantType := map[string]uint16{"getstatus": uapi.MsgGet, "getrules": uapi.MsgListRules, "deleterules": uapi.MsgListRules, "addrule": uapi.MsgAddRule, "deleterule": uapi.MsgDelRule}[k.Op]
@@ -527,6 +530,43 @@ func c08Cases(c *mon.Ctx) []*c08Case {
 		for _, u := range []int{0, 2} {
 			for _, b := range []int{0, 2} {
 				add(c08Case{Op: "getstatus", StatusLen: n, Unsol: []int{u, u}, Burst: []int{b, b}})
+			}
+		}
+	}
+	// many unsolicited records between a request and its reply (an audit daemon starting up on a busy
+	// machine): skipping them must not use up anything
+	for _, op := range c08Ops {
+		nr := 0
+		if op == "getrules" || op == "deleterules" {
+			nr = 2
+		}
+		nd := c08Datagrams(op, nr)
+		for _, u := range []int{9, 10, 11, 25, 60} {
+			for _, pos := range []int{0, nd - 1} {
+				for _, b := range []int{0, 2} {
+					un, bu := make([]int, nd), make([]int, nd)
+					un[pos], bu[pos] = u, b
+					add(c08Case{Op: op, NRules: nr, Unsol: un, Burst: bu})
+					add(c08Case{Op: op, NRules: nr, Errno: int(syscall.EPERM), Unsol: un, Burst: bu})
+				}
+			}
+		}
+	}
+	// transports that wrap the transient receive errors
+	for _, op := range c08Ops {
+		nr := 0
+		if op == "getrules" || op == "deleterules" {
+			nr = 2
+		}
+		nd := c08Datagrams(op, nr)
+		for _, w := range []int{1, 2} {
+			for pos := 0; pos < nd && pos < 4; pos++ {
+				for _, b := range []int{1, 2, 3, 4} {
+					bu := make([]int, nd)
+					bu[pos] = b
+					add(c08Case{Op: op, NRules: nr, Burst: bu, WrapErr: w, Unsol: make([]int, nd)})
+					add(c08Case{Op: op, NRules: nr, Errno: int(syscall.ENOENT), Burst: bu, WrapErr: w, Unsol: make([]int, nd)})
+				}
 			}
 		}
 	}
